@@ -6,7 +6,7 @@
 From stdpp Require Import gmap sets list.
 From Coq Require Import NArith.
 From SV Require Import SM.IndexModel SM.IndexProofs SM.IndexSearchProofs SM.IndexShapes SM.IndexShapeProofs
-  SM.IndexUniqueProofs SM.IndexCopySetProofs.
+  SM.IndexUniqueProofs SM.IndexCopySetProofs SM.IndexMaint SM.IndexMaintProofs SM.IndexEquivProofs.
 
 Section C07.
   Variable fold : str → str.
@@ -74,6 +74,30 @@ Section C07.
     by apply set_item_inv.
   Qed.
 
+  (** Entity.__setitem__ as written, whole function (round 3): the lookup loop of shape [sh] followed by the
+      maintenance program [p] read off the source (the `if key_fold == 'classname' ... elif ...` chain with the
+      worldspawn guard; `self['classname'] = 'worldspawn'` on its error path is a recursive call of the same
+      function, modelled with an explicit depth).  When every path through [p] executes the actions the four named
+      obligations ask for, the function is the model's [set_item] for all arguments and states — in particular the
+      rejected re-class of the worldspawn leaves it listed under 'worldspawn' — and keeps the invariant. *)
+  Theorem c07_setitem_maintenance_as_written : ∀ sh p d e key v st,
+    setitem_shape_ok sh = true → maint_ok p = true →
+    set_item_pg fold sh p (S (S d)) e key v st = set_item fold e key v st ∧
+    (Inv fold st → Inv fold (set_item_pg fold sh p (S (S d)) e key v st).1).
+  Proof.
+    intros sh p d e key v st Hsh Hp. rewrite (set_item_pg_ok fold fold_cn fold_ws sh p d e key v st Hsh Hp).
+    split; [done|]. by apply set_item_inv.
+  Qed.
+
+  (** VMF.add_ents as written (round 3): a program over an argument that may be a one-shot iterable.  When every
+      entity is listed once and indexed once in both indexes — whether or not the argument can be iterated a
+      second time — the function is the model's [add_ents] for every argument, and keeps the invariant. *)
+  Theorem c07_add_ents_as_written : ∀ p es oneshot st, ae_ok p = true →
+    ae_run fold p es oneshot st = add_ents fold es st ∧ (Inv fold st → Inv fold (ae_run fold p es oneshot st)).
+  Proof.
+    intros p es oneshot st Hp. rewrite (ae_run_ok fold p es oneshot st Hp). split; [done|]. by apply add_ents_inv.
+  Qed.
+
   (** VMF.search as written: any program for the two branches that passes the shape obligations — over the real
       defaultdict semantics, where reading a missing key inserts an empty set and `name in index` sees such keys —
       returns exactly [search_spec], and the state it leaves cannot be told from the one before by any reader. *)
@@ -97,6 +121,20 @@ Section C07.
     Proof. exact (free_name_some fold). Qed.
     Theorem c07_make_unique_terminates : ∀ e p st, (make_unique fold e p st).2 = 0.
     Proof. exact (make_unique_terminates fold fold_app_dec fold_tn). Qed.
+
+    (** Every operation respects [ix_equiv] (round 3): two states that differ only in empty sets held by the index
+        maps — what defaultdict reads, iteration and make_unique's own lookups leave behind in the implementation
+        and the model does not track — give equivalent states and the same error code, step after step.  (For
+        make_unique the fuel of the model's loop differs between the two states; the name found does not.) *)
+    Theorem c07_step_respects_ix_equiv : ∀ o st st', ix_equiv st st' →
+      ix_equiv (step fold o st).1 (step fold o st').1 ∧ (step fold o st).2 = (step fold o st').2.
+    Proof. exact (step_resp fold fold_app_dec). Qed.
+    Theorem c07_run_respects_ix_equiv : ∀ ops st st', ix_equiv st st' →
+      ix_equiv (run fold ops st) (run fold ops st') ∧ (Inv fold st → Inv fold (run fold ops st')).
+    Proof.
+      intros ops st st' H. pose proof (run_resp fold fold_app_dec ops st st' H) as H'. split; [done|].
+      intros HI. eapply ix_equiv_inv; [|exact H']. by apply run_inv.
+    Qed.
   End unique.
 
   (** *** Iterating an index while mutating it (CopySet.__iter__, shape read off the source): a generator that
@@ -154,6 +192,26 @@ Theorem c07_search_elif_refuted :
   Inv ascii_fold st_probe ∧ search_spec ascii_fold [97]%N st_probe 1 ∧ 1 ∉ (search_sh ascii_fold search_shape_elif [97]%N st_probe).1 ∧
   Inv ascii_fold st_named ∧ search_spec ascii_fold [97]%N st_named 1 ∧ 1 ∉ (search_sh ascii_fold search_shape_elif [97]%N st_named).1.
 Proof. exact search_elif_refuted. Qed.
+
+(** Round 3: today's maintenance program and add_ents pass their obligations; the shapes of seeded faults c07_3
+    (rejected re-class of the worldspawn reverted by a direct store: ValueError is raised, the keyvalue is back,
+    the worldspawn is gone from by_class) and c07_4 (add_ents iterates its argument twice: with a generator the
+    entity is listed but not indexed) fail theirs and break the invariant on reachable states. *)
+Example c07_maintenance_today_ok : maint_ok maint_today = true ∧ ae_ok add_ents_today = true.
+Proof. split; reflexivity. Qed.
+Theorem c07_setitem_guard_direct_revert_refuted :
+  maint_guard_error_ok maint_direct_revert = false ∧
+  maint_classname_ok maint_direct_revert = true ∧ maint_targetname_ok maint_direct_revert = true ∧
+  maint_other_ok maint_direct_revert = true ∧
+  let r := set_item_pg ascii_fold setitem_shape_today maint_direct_revert 2 0 cn [97]%N init in
+  r.2 = 2 ∧ keys_of r.1 0 = [(cn, ws)] ∧ ¬ Inv ascii_fold r.1.
+Proof. exact maint_direct_revert_refuted. Qed.
+Theorem c07_add_ents_iterated_twice_refuted :
+  ae_ok_reiterable add_ents_twice = true ∧ ae_ok_oneshot add_ents_twice = false ∧
+  let st0 := run ascii_fold [NewEnt [(cn, [97]%N)]] init in
+  Inv ascii_fold st0 ∧ ents (ae_run ascii_fold add_ents_twice [1] true st0) = [1] ∧
+  ¬ Inv ascii_fold (ae_run ascii_fold add_ents_twice [1] true st0).
+Proof. exact add_ents_twice_refuted. Qed.
 
 (** The hypotheses are satisfiable: ASCII lower-casing. *)
 Example c07_ascii_fold_ok :
